@@ -9,7 +9,7 @@ from . import common
 
 def campaign(ck, seconds=None):
     seconds = seconds or int(os.environ.get("VERIF_FUZZ_SECONDS", "300"))
-    proj = os.path.join(common.VERIF, "harness/fuzzproj")
+    proj = common.harness_dir("fuzzproj")
     tgt = os.path.join(common.WORK, "tgt-fuzz")
     lock = os.path.join(proj, "fuzz/Cargo.lock")
     if not os.path.exists(lock):
